@@ -297,6 +297,9 @@ func (j JID) MarshalXMLAttr(name xml.Name) (xml.Attr, error) {
 // an XML attribute into a valid JID (or returns an error).
 func (j *JID) UnmarshalXMLAttr(attr xml.Attr) error {
 	if attr.Value == "" {
+		// The empty attribute is the encoding of the zero value; do not keep
+		// whatever the receiver held before.
+		*j = JID{}
 		return nil
 	}
 	jid, err := Parse(attr.Value)
